@@ -103,13 +103,13 @@ def run_watch(cmd, quiet_s, budget_s, env=None):
         if now - t0 > budget_s:
             verdict = "budget"
             break
-    if verdict != "exit":
-        try:
-            os.killpg(pgid, signal.SIGKILL)
-        except OSError:
-            pass
+    # also after a normal end: forked application processes may outlive an aborted checker and keep the pipe open
     try:
-        out, _ = p.communicate(timeout=10)
+        os.killpg(pgid, signal.SIGKILL)
+    except OSError:
+        pass
+    try:
+        out, _ = p.communicate(timeout=60)
     except subprocess.TimeoutExpired:
-        out = ""
+        out = "(output not available)"
     return verdict, (p.returncode if verdict == "exit" else None), out
